@@ -143,6 +143,8 @@ class C05(engine.Property):
 
     # -- generation --------------------------------------------------------------------
     def next_op(self, rng, cfg, st):
+        if getattr(st, "diverged", False):
+            return None
         if st.pending is None:
             st.pending = gen.setup_ops(rng, cfg, st.namer)
             # a few edges up front so that reads have something to read
@@ -284,6 +286,8 @@ class C05(engine.Property):
 
     # -- execution and oracle -------------------------------------------------------------
     def execute(self, st, op):
+        if getattr(st, "diverged", False):
+            return None, None
         k = op["op"]
         s = st.stats
         if k == "flag":
@@ -435,7 +439,13 @@ class C05(engine.Property):
         st.recent_reads = list(ex.get("recent_reads", []))
         st.pending = []
         st.restarted = True
-        st.refresh()
+        snap_b = st.refresh()
+        if st.snapshot_A() != snap_b:
+            # the twins came back from the pickle structurally different from
+            # each other: the round trip is at fault (C10's matter), and
+            # nothing compared from here on would say anything about caching
+            st.diverged = True
+            st.stats["note:twins-diverged-across-restart"] += 1
         return st
 
     def load_failed(self, cfg, op, exc):
